@@ -232,7 +232,7 @@ def judge_chunk(args):
             out['opt_diverges'] += 1
             bad_opt = next(o for o, r in results.items() if isinstance(r, Exception))
             exn = results[bad_opt]
-            out['viol'].append(({'kind': 'optimise_outcome_differs', 'top': d[0], 'fails_with_optimize': bad_opt, 'exc': type(exn).__name__}, _jd(d),
+            out['viol'].append(({'kind': 'optimise_outcome_differs', 'top': d[0], 'fails_with_optimize': bad_opt, 'exc': common.exc_family(exn)}, _jd(d),
                                 f'{show_desc(d)} concluding {conc}: serialize(optimize={bad_opt}) raised {type(exn).__name__}: {str(exn)[:120]} '
                                 f'while serialize(optimize={not bad_opt}) succeeds'))
         out['accepted'] += 1
